@@ -175,5 +175,41 @@ func streamIds(s *stream.Stream, c *streamCtx) error {
 		s.Count("closure")
 		os.RemoveAll(groot)
 	}
+	// which main packages start the service: the loop of applyMainEntries over the real Config.IsMainEntry
+	entryPool := []string{"*", "cmd/m0", "cmd/m0x", "cmd/m0/", "./cmd/m0", ".", "cmd", "cmd/m0/tools/dump", "**", "cmd/*", "svc/a/cmd/app", "CMD/m0", "cmd/m1"}
+	dirPool := []string{".", "cmd/m0", "cmd/m0x", "cmd/m0/tools/dump", "cmd/m1", "svc/a/cmd/app", "svc/b/cmd/app", "cmd"}
+	for i := 0; i < n; i++ {
+		var entries []string
+		for k := c.rng.Intn(4); k > 0; k-- {
+			entries = append(entries, entryPool[c.rng.Intn(len(entryPool))])
+		}
+		mcfg := &config.Config{MainEntries: entries}
+		var mains, got []string
+		perm := c.rng.Perm(len(dirPool))
+		nm := 1 + c.rng.Intn(5)
+		for k := 0; k < nm; k++ {
+			d := dirPool[perm[k]]
+			cnt := c.rng.Intn(3)
+			mains = append(mains, fmt.Sprintf("%s:%d", proto.Enc(d), cnt))
+			if mcfg.IsMainEntry(d) && cnt > 0 {
+				got = append(got, fmt.Sprint(k))
+			}
+		}
+		var encE []string
+		for _, e := range entries {
+			encE = append(encE, proto.Enc(e))
+		}
+		ans := strings.Join(got, " ")
+		if ans == "" {
+			ans = "-"
+		}
+		req := strings.TrimSpace("serve " + strings.Join(encE, " ") + " | " + strings.Join(mains, " "))
+		jans := strings.Join(got, " ")
+		s.Case(req, ans, strings.TrimSpace("judge:"+req+" | "+jans), len(got) > 0)
+		s.Count("serve")
+		if len(entries) == 0 {
+			s.Count("serve:empty-selection")
+		}
+	}
 	return nil
 }
